@@ -189,6 +189,22 @@ def Call.topView (W : World) (c : Call) : TopView :=
 def freshResult (W : World) (cfg : Cfg) (fuel : Nat) (c : Call) : Except Err Mapping :=
   compile cfg fuel (c.topView W) (c.parsedTree W)
 
+/-- the data part of a result -/
+def dataOf : Except Err (Mapping × String) → Except Err Mapping
+  | .ok dv => .ok dv.1
+  | .error e => .error e
+
+/-- the reference for a whole history: after the edits so far, every `get` is answered by a
+newly constructed cache-less source (`Vinegar.Yaml.compile` on the tree as it is now) -/
+def freshHistory (W : World) (R : Render) (cfg : Cfg) (fuel : Nat) : Fs → List Step → List (Except Err Mapping)
+  | _, [] => []
+  | fs, .get id pdv :: rest => freshResult W cfg fuel (fs.call R id pdv) :: freshHistory W R cfg fuel fs rest
+  | fs, .write p s :: rest => freshHistory W R cfg fuel (fs.apply (.write p s)) rest
+  | fs, .delete p :: rest => freshHistory W R cfg fuel (fs.apply (.delete p)) rest
+  | fs, .mkdir p :: rest => freshHistory W R cfg fuel (fs.apply (.mkdir p)) rest
+  | fs, .swap p :: rest => freshHistory W R cfg fuel (fs.apply (.swap p)) rest
+  | fs, .setTop n :: rest => freshHistory W R cfg fuel (fs.apply (.setTop n)) rest
+
 /-- observation of one call: data and version, or the class of the error -/
 inductive Obs where
   | ok (data : Mapping) (version : String)
